@@ -277,10 +277,9 @@ func cmdReplay(args []string) {
 		for _, v := range s.Violations {
 			fmt.Printf("  other violation seen: %s %s\n", v.Class(), truncate(v.Detail, 300))
 		}
-		if hashOK {
-			os.Exit(0) // same execution, property holds now (e.g. after a fix)
-		}
-		os.Exit(2)
+		// not reproduced: the property holds on this schedule with the current code
+		// (recorded hashes differ when the code under test changed since recording)
+		os.Exit(0)
 	}
 	fmt.Printf("VIOLATION property=%s replay=%s\n", rf.Property, args[0])
 	fmt.Printf("  class=%s culprit=%s height=%d (recorded height %d; hashes match recorded: %v)\n  %s\n", got.Class(), got.Culprit, got.Height, rf.Violation.Height, hashOK, got.Detail)
